@@ -9,7 +9,7 @@ use std::fmt;
 use std::collections::HashMap;
 use datasize::DataSize;
 use crate::object::PlainRef;
-use crate::primitive::{Dictionary, PdfString, Name};
+use crate::primitive::{Dictionary, PdfString, Name, Primitive};
 use crate::error::{PdfError, Result};
 
 type Aes128CbcEnc = cbc::Encryptor<aes::Aes128>;
@@ -61,7 +61,7 @@ impl Rc4 {
 }
 
 /// 7.6.1 Table 20 + 7.6.3.2 Table 21
-#[derive(Object, Debug, Clone, DataSize)]
+#[derive(Object, ObjectWrite, Debug, Clone, DataSize)]
 pub struct CryptDict {
     #[pdf(key="O")]
     o: PdfString,
@@ -103,7 +103,7 @@ pub struct CryptDict {
     _other: Dictionary
 }
 
-#[derive(Object, Debug, Clone, Copy, DataSize)]
+#[derive(Object, ObjectWrite, Debug, Clone, Copy, DataSize)]
 pub enum CryptMethod {
     None,
     V2,
@@ -111,13 +111,13 @@ pub enum CryptMethod {
     AESV3,
 }
 
-#[derive(Object, Debug, Clone, Copy, DataSize)]
+#[derive(Object, ObjectWrite, Debug, Clone, Copy, DataSize)]
 pub enum AuthEvent {
     DocOpen,
     EFOpen
 }
 
-#[derive(Object, Debug, Clone, DataSize)]
+#[derive(Object, ObjectWrite, Debug, Clone, DataSize)]
 #[pdf(Type="CryptFilter?")]
 pub struct CryptFilter {
     #[pdf(key="CFM", default="CryptMethod::None")]
